@@ -22,7 +22,10 @@ on both real queues and compared with the model *and* with each other.
              read oracle   = black-box drain: pop() until IndexError on both queues must deliver exactly the model's
                              order (highest effective priority first, earliest (re-)insertion among equals), len()
                              counting down, then default / IndexError on the empty queue.
-  supplement native-scale directed histories (tens of thousands of entries), NOT exhaustive, reported separately.
+  supplement native-scale directed histories (tens of thousands of entries), NOT exhaustive, reported separately
+             (coverage.native_scale_supplement); quick runs the 40 000-task ones, thorough adds 80 000 and factor 8.
+  hangs      every step runs under a CPU-time budget (ITIMER_VIRTUAL); a step that exceeds it is a violation
+             (`does-not-terminate`), the worker skips the rest of its share and the run stops after that search.
 """
 import copy
 import signal
@@ -34,7 +37,7 @@ LEVEL = 'model_checking'
 
 TASKS = ('a', 'b', 'c', 'd')
 PRIOS = (None, 0, 1, -1, 1.5)
-OP_CPU_BUDGET_S = 3.0          # CPU seconds one operation of the code under test may take before it counts as a hang
+OP_CPU_BUDGET_S = 3.0          # CPU seconds one step (replay + operation + inspection + drain, normally < 1 ms) may take
 DEFAULT = '<default>'          # the object handed in as `default`; never a task
 
 
@@ -650,6 +653,8 @@ def run(ctx):
                 all(r.fixpoint or (r.capped or '').startswith('depth') for _, r in parts))
     cov['exhaustive'] = complete
     cov['preload_steps_validated'] = pre_steps
+    cov['exhaustive_means'] = ('every history over the op menu up to max_depth was executed, per search and start state '
+                               '(depth bound, not a fixpoint); the native-scale supplement is excluded from this claim')
     cov['bounds'] = {'tasks': list(TASKS), 'priorities': list(PRIOS), 'ops': [m[0] for m in Spec(1).menu[:7]] +
                      ['add(t)', 'add(t,p)', 'remove(t)'],
                      'depth_per_search': [c['max_depth'] for c, _ in parts],
